@@ -35,6 +35,9 @@ POS = {
     "enum": ("CREATE TYPE ty1 AS ENUM ('first', {L}, 'last');", lambda r: r[0]["properties"]["values"][1]),
     "option": ("CREATE TABLE t1 (a int, b varchar(50), c int) LOCATION {L};", lambda r: r[0]["table_properties"]["location"]),
     # literals as LIST elements / option values inside CREATE TABLE (wave-4 seeds C07-I / C07-J)
+    # a literal that holds the name of a column as a word, the column renamed afterwards (identifier rewriting must not reach into literals)
+    "check_then_rename": ("CREATE TABLE t1 (a int, word varchar(50), c int, CHECK (word <> {L}));\nALTER TABLE t1 RENAME COLUMN word TO renamed;", lambda r: r[0]["checks"][0]["statement"]),
+    "default_then_rename": ("CREATE TABLE t1 (a int, Zq varchar(50) DEFAULT {L}, c int);\nALTER TABLE t1 RENAME COLUMN Zq TO renamed;\nALTER TABLE t1 RENAME COLUMN a TO a2;", lambda r: r[0]["columns"][1]["default"]),
     "col_enum": ("CREATE TABLE t1 (a int, b ENUM('first', {L}, 'last'), c int);", lambda r: r[0]["columns"][1]["values"][1]),
     "col_check_in": ("CREATE TABLE t1 (a int, b varchar(50) CHECK (b IN ('x', {L})), c int);", lambda r: r[0]["columns"][1]["check"][0]["in_statement"]["in"][1]),
     "default_paren": ("CREATE TABLE t1 (a int, b varchar(50) DEFAULT ({L}), c int);", lambda r: r[0]["columns"][1]["default"]),
@@ -81,6 +84,11 @@ def run(tier, seed):
     if len(behs) > cap:
         keep = [b for b in behs if len(b["lit"]) <= 2]
         behs = keep + rnd.sample([b for b in behs if len(b["lit"]) > 2], cap - len(keep))
+    # a second, exhaustive enumeration over a FOCUS alphabet with longer strings (blank = blank, word = word, doubled quotes ..): every string kept
+    gf = mc(consts(MaxLit=4 if not thorough else 5, WithHist="TRUE", LitClasses='{"letter", "space", "eq", "quote2", "digit"}'), "generation (focus alphabet)")
+    behs = behs + [b for b in gf.beh if len(b["lit"]) >= 3]
+    states += gf.distinct
+    trans += gf.generated
     cases, tasks = [], []
     reps = 2 if thorough else 1
     for b in behs:
@@ -102,7 +110,7 @@ def run(tier, seed):
         except Exception as e:  # noqa
             V.mismatch(dict(case, problem="literal not reported at its position (" + type(e).__name__ + ")"), tags=tags, paths=["missing"])
             continue
-        ok = (got == lit) if pid not in ("check", "col_check", "alter_check") else (isinstance(got, str) and lit in got)
+        ok = (got == lit) if pid not in ("check", "col_check", "alter_check", "check_then_rename") else (isinstance(got, str) and lit in got)
         if not ok:
             V.mismatch(dict(case, problem="literal not verbatim", reported=got), tags=tags, paths=["literal"])
     # numeric defaults come back as integers of the same value
